@@ -3,11 +3,15 @@
 From Coq Require Extraction.
 From Coq Require Import ExtrOcamlBasic.
 From Coq Require Import List NArith ZArith.
-From YV Require Import Ids.Ranges.
+From YV Require Import Lib.Bytes Ids.Ranges Codec.Varint Codec.AnyCodec Codec.IdSetCodec Codec.UpdateV1 Crdt.Doc.
 Extraction Language OCaml.
 Extraction "model.ml"
   N.add N.mul N.sub N.div_eucl N.eqb N.ltb N.leb N.of_nat N.to_nat
   Z.add Z.mul Z.opp Z.of_N Z.to_N Z.eqb Z.ltb Z.div_eucl
   insert_with remove merge exclude intersect subset_of contains_clock find_start
   im_get im_contains im_insert_range im_merge_with im_intersect_with im_remove_range im_diff_with
+  read_var_u32 read_var_u64 read_var_i64 read_signed write_var_u32 write_var_u64 write_var_i64 read_buf write_buf
+  decode_any encode_any decode_idset_v1 encode_idset_v1 decode_sv_v1 encode_sv_v1 decode_snapshot_v1 encode_snapshot_v1
+  decode_update_v1 encode_update_v1 units_of_update
+  empty_replica replica_apply replica_state render restrict_pool integrated_ids pending_ds visible seq_len map_value
   ueq umerge idset_insert idset_insert_range attrs_eq attrs_merge idattr_insert idattr_remove idattr_as_set.
